@@ -58,7 +58,9 @@ func decryptKey(
 	if err := X.UnmarshalBinary(ciphertext[:enclen]); err != nil {
 		return nil, 0, err
 	}
-	Xb = ciphertext[:enclen]
+	// full slice expression: header() appends to Xb, which must not write
+	// into (and thereby "repair") the ciphertext it is later compared with
+	Xb = ciphertext[:enclen:enclen]
 	Xblen := len(Xb)
 
 	// Decode the (supposed) master secret with our private key
